@@ -16,7 +16,7 @@ from vf.util import tally_ops, tally_prog
 
 PROPERTY = "C27"
 WORKERS = {"quick": 16, "thorough": 16}
-TIME = {"quick": 40, "thorough": 1200}
+TIME = {"quick": 40, "thorough": 240}
 BOX = {"quick": 8, "thorough": 10}
 EXHAUSTIVE = "moved_fraction over every ordered pair of chunkings of every n <= N (quick N=8, thorough N=10)"
 TECHNIQUE = "runtime invariant monitor walking every node of the raw/simplified/lowered/fused expression of generated programs, plus an icontract postcondition on the real moved_fraction driven exhaustively"
